@@ -742,3 +742,28 @@ theorem lookupLast_congr (act act' : List Header)
       simp only [lookupLast, ih t' h.2, h.1.1, h.1.2]
 
 end ConfModel.Assert
+
+namespace ConfModel.Assert
+open ConfModel.Agree
+
+theorem mem_checkDetailsFrom_reqInfo (g : Int) (k : Nat) (es as : List Detail) (j : Nat)
+    (he : j < es.length) (ha : j < as.length) (er ar : ReqInfo)
+    (h1 : es[j] = .reqInfo er) (h2 : as[j] = .reqInfo ar) (d : Discrepancy)
+    (hd : d ∈ checkRequestInfo g er ar true) : d ∈ checkDetailsFrom g k es as := by
+  induction es generalizing as k j with
+  | nil => simp at he
+  | cons e es ih =>
+    cases as with
+    | nil => simp at ha
+    | cons a as =>
+      unfold checkDetailsFrom
+      cases j with
+      | zero =>
+        simp only [List.getElem_cons_zero] at h1 h2
+        subst h1; subst h2
+        exact List.mem_append_left _ hd
+      | succ j =>
+        simp only [List.getElem_cons_succ, List.length_cons, Nat.add_lt_add_iff_right] at h1 h2 he ha
+        exact List.mem_append_right _ (ih (k + 1) as j he ha h1 h2)
+
+end ConfModel.Assert
